@@ -26,5 +26,6 @@ macro_rules! registry {
 }
 
 registry! {
+    c01::C01,
     c10::C10,
 }
